@@ -77,6 +77,8 @@ type C struct {
 	wkMemo    map[*ssa.Function][]int
 	hookOwner *C
 	rllMemo   map[string]int
+	viaMemo   map[string]bool
+	ctxMemo   map[string]bool
 }
 
 func (c *C) Count(name string, n int) { c.Counts[name] += n }
